@@ -87,6 +87,26 @@ def extra_filters(mv, bb, allow_reference=False):
     return out
 
 
+def _zero_iff_all_zero(t):
+    """field names such that the (unsigned) term is zero exactly when all of them are zero; None when that cannot be established"""
+    t = P.norm(t)
+    if not isinstance(t, tuple) or not t:
+        return None
+    if t[0] == "fld":
+        return {t[2]}
+    if t[0] == "bin" and t[1] == "BitOr":
+        a, b = _zero_iff_all_zero(t[2]), _zero_iff_all_zero(t[3])
+        return (a | b) if (a is not None and b is not None) else None
+    nm = P.call_name(t) or ""
+    short = nm.rsplit("::", 1)[-1]
+    if short in ("max", "saturating_add") and len(t[4]) == 2:
+        a, b = _zero_iff_all_zero(t[4][0]), _zero_iff_all_zero(t[4][1])
+        return (a | b) if (a is not None and b is not None) else None
+    if short in ("from", "into") and len(t[4]) == 1 and "core::convert" in nm:
+        return _zero_iff_all_zero(t[4][0])   # lossless widening
+    return None
+
+
 def classify_preflight(mv, layer):
     """err-guards of an ensure_*_compatible function -> {class: [guard]}; unknown ones under None"""
     classes = {}
@@ -396,9 +416,10 @@ def checks16(ck, ob):
             for side, other in ((rc[1], rc[2]), (rc[2], rc[1])):
                 zero = P.const_of(other) == 0 or (P.call_name(other) or "").endswith("default")
                 if zero:
-                    for s_ in T.walk(side):
-                        if s_ and s_[0] == "fld":
-                            fields.setdefault(s_[2], []).append(g)
+                    # the compared value must be zero IFF every field in it is zero: the field itself, or a combination that cannot
+                    # cancel (a | b, max, saturating / widened sum) — `a.wrapping_add(b)`, `a + b`, `a ^ b`, `a & b` do not count
+                    for nm_ in (_zero_iff_all_zero(side) or ()):
+                        fields.setdefault(nm_, []).append(g)
         missing = [f for f in want if f not in fields]
         ob.add({"C16"}, not missing, "CMP", fn + "/sentinel-table", "%s rejects (Err) a template whose %s is non-zero" % (fn, ", ".join(want)), mv.loc0, {"missing": missing, "found": sorted(fields)})
         ver = mv.calls(lambda t: t.get("name") == "verify" and (t.get("impl_adt") or "").endswith("VerifierCircuitData"))
